@@ -606,6 +606,12 @@ def _class_to_name(cls: type[VectorProtocol]) -> str:
 
 # the vector class ############################################################
 
+# field names that denote coordinates (generic names and momentum synonyms)
+_azimuthal_fields = ("x", "y", "rho", "phi", "px", "py", "pt")
+_longitudinal_fields = ("z", "theta", "eta", "pz")
+_temporal_fields = ("t", "tau", "E", "e", "energy", "M", "m", "mass")
+_coordinate_fields = _azimuthal_fields + _longitudinal_fields + _temporal_fields
+
 
 def _yes_record(
     x: ak.Array,
@@ -714,19 +720,13 @@ class VectorAwkward:
             fields = ak.fields(self)
             if num_vecargs == 1:
                 for name in fields:
-                    if name not in (
-                        "x",
-                        "y",
-                        "rho",
-                        "pt",
-                        "phi",
-                    ):
+                    if name not in _azimuthal_fields:
                         names.append(name)
                         arrays.append(self[name])
 
-            if "t" in fields or "tau" in fields:
+            if any(name in _temporal_fields for name in fields):
                 cls = cls.ProjectionClass4D
-            elif "z" in fields or "theta" in fields or "eta" in fields:
+            elif any(name in _longitudinal_fields for name in fields):
                 cls = cls.ProjectionClass3D
             else:
                 cls = cls.ProjectionClass2D
@@ -763,25 +763,7 @@ class VectorAwkward:
 
             if num_vecargs == 1:
                 for name in ak.fields(self):
-                    if name not in (
-                        "x",
-                        "y",
-                        "rho",
-                        "pt",
-                        "phi",
-                        "z",
-                        "pz",
-                        "theta",
-                        "eta",
-                        "t",
-                        "tau",
-                        "m",
-                        "M",
-                        "mass",
-                        "e",
-                        "E",
-                        "energy",
-                    ):
+                    if name not in _coordinate_fields:
                         names.append(name)
                         arrays.append(self[name])
 
@@ -829,21 +811,11 @@ class VectorAwkward:
             fields = ak.fields(self)
             if num_vecargs == 1:
                 for name in fields:
-                    if name not in (
-                        "x",
-                        "y",
-                        "rho",
-                        "pt",
-                        "phi",
-                        "z",
-                        "pz",
-                        "theta",
-                        "eta",
-                    ):
+                    if name not in _azimuthal_fields + _longitudinal_fields:
                         names.append(name)
                         arrays.append(self[name])
 
-            if "t" in fields or "tau" in fields:
+            if any(name in _temporal_fields for name in fields):
                 cls = cls.ProjectionClass4D
             else:
                 cls = cls.ProjectionClass3D
@@ -892,25 +864,7 @@ class VectorAwkward:
 
             if num_vecargs == 1:
                 for name in ak.fields(self):
-                    if name not in (
-                        "x",
-                        "y",
-                        "rho",
-                        "pt",
-                        "phi",
-                        "z",
-                        "pz",
-                        "theta",
-                        "eta",
-                        "t",
-                        "tau",
-                        "m",
-                        "M",
-                        "mass",
-                        "e",
-                        "E",
-                        "energy",
-                    ):
+                    if name not in _coordinate_fields:
                         names.append(name)
                         arrays.append(self[name])
 
@@ -966,25 +920,7 @@ class VectorAwkward:
 
             if num_vecargs == 1:
                 for name in ak.fields(self):
-                    if name not in (
-                        "x",
-                        "y",
-                        "rho",
-                        "pt",
-                        "phi",
-                        "z",
-                        "pz",
-                        "theta",
-                        "eta",
-                        "t",
-                        "tau",
-                        "m",
-                        "M",
-                        "mass",
-                        "e",
-                        "E",
-                        "energy",
-                    ):
+                    if name not in _coordinate_fields:
                         names.append(name)
                         arrays.append(self[name])
 
